@@ -27,7 +27,7 @@ CEX_MAIN {
       const uint8_t *d = carquet_buffer_data_const(&b);
       size_t sz = carquet_buffer_size(&b);
       uint8_t *exact = malloc(sz ? sz : 1);   /* exact size: ASan sees over-reads */
-      memcpy(exact, d, sz);
+      if (sz) memcpy(exact, d, sz);
       int64_t r = carquet_rle_decode_all(exact, sz, bw, one, n);
       CEX_CHECK(r == n && memcmp(one, v, (size_t)n * 4) == 0, "one-shot decode differs from the original sequence");
       for (int64_t chunk = 1; chunk <= 13; chunk++) {
